@@ -284,33 +284,50 @@ def run(rep: core.Report):
     gdd = tu.functions.get("get_dd")
     if gdd is None:
         raise AnalysisError("anchor vanished: get_dd")
-    # the block executed when |G + q| < tolerance and a direction is given
-    blocks = []
-    for x in cast.walk(gdd):
-        if x.get("kind") == "IfStmt":
-            ks = cast.kids(x)
-            ct = cast.text(ks[0])
-            if "q_direction_cart" in ct and "tolerance" not in ct and len(ks) == 3:
-                blocks.append((ct, ks[1], ks[2]))
-    if len(blocks) != 1:
-        raise AnalysisError("R08d: the direction branch of get_dd's zero-vector case vanished")
-    ct, then_b, else_b = blocks[0]
-    neg = ct.replace(" ", "").startswith("!")
-    none_b, dir_b = (then_b, else_b) if neg else (else_b, then_b)
+    # the loop over G that fills KK, executed for a generic g with and without a direction; the cells of KK[g] are
+    # indicator-weighted mixtures of the zone-centre case (|G + q| below the tolerance) and the generic case
+    gloops = [x for x in cast.kids(cast.body(gdd)) if x.get("kind") == "ForStmt" or str(x.get("kind", "")).startswith("OMP")]
+    gl = None
+    for x in gloops:
+        for y in ([x] if x.get("kind") == "ForStmt" else [z for z in cast.walk(x) if z.get("kind") == "ForStmt"][:1]):
+            if any(z.get("kind") in ("BinaryOperator",) and z.get("opcode") == "=" and cast.text(cast.kids(z)[0]).startswith("KK[") for z in cast.walk(y)):
+                gl = gl or y
+    if gl is None:
+        raise AnalysisError("R08d: the loop of get_dd that fills KK vanished")
+    body_g = [x for x in gl.get("inner", []) if isinstance(x, dict) and x.get("kind")][-1]
+    body_stmts = cast.kids(body_g) if body_g.get("kind") == "CompoundStmt" else [body_g]
     g = sp.Symbol("g", integer=True)
-    stt = celem.State(ex, "get_dd", {"g": g}, {}, 0)
-    stt.local_arrays.add("KK")
-    stt.block([dir_b])
     nvec = sp.Function("q_direction_cart")
     den_n = sum(nvec(p) * eps(p, q) * nvec(q) for p in range(3) for q in range(3))
-    bad_kk = [(a, b) for a in range(3) for b in range(3) if not (eq0(stt.cell("KK", g, a, b) - nvec(a) * nvec(b) / den_n) and eq0(_scaled(stt.cell("KK", g, a, b), "q_direction_cart", s) - stt.cell("KK", g, a, b)))]
+
+    def kk_cells(with_direction):
+        ex_ = celem.ElemExec(tu, where=DYN, nonnull_pointers={"q_direction_cart"} if with_direction else (), null_pointers=() if with_direction else {"q_direction_cart"})
+        ex_.ignore_continue = True
+        st_ = celem.State(ex_, "get_dd", {"g": g, "tolerance": sp.Symbol("tolerance", positive=True), "L2": sp.Symbol("L2", positive=True), "lambda": sp.Symbol("lambda", positive=True)}, {}, 0)
+        st_.local_arrays |= {"KK", "q_K"}
+        st_.block(body_stmts)
+        return st_
+
+    def at(expr, zone_centre):
+        """the value in the zone-centre case / the generic case: every indicator of the tolerance test set to 1 / 0"""
+        reps = {}
+        for f_ in expr.atoms(sp.Function):
+            nm_ = getattr(f_.func, "__name__", "")
+            if nm_ in ("ind_gt", "ind_ge"):
+                reps[f_] = sp.Integer(1 if zone_centre else 0)
+        return sp.simplify(expr.subs(reps))
+
+    stt = kk_cells(True)
+    bad_kk = []
+    for a in range(3):
+        for b in range(3):
+            v = at(stt.cell("KK", g, a, b), True)
+            if not (eq0(v - nvec(a) * nvec(b) / den_n) and eq0(_scaled(v, "q_direction_cart", s) - v)):
+                bad_kk.append((a, b, v))
     rep.instance("R08d", DYN, "get_dd", "KK[g][a][b] at G + q = 0 with direction n == n_a n_b / (n.eps.n) for all 9 (a, b)", not bad_kk,
-                 f"the zone-centre term of the reciprocal sum is not n_a n_b/(n.eps.n) (or depends on the length of n) for (a, b) in {bad_kk}", line=tu.line(gdd))
-    st0 = celem.State(ex, "get_dd", {"g": g}, {}, 0)
-    st0.local_arrays.add("KK")
-    zero_stmts = [y for y in cast.kids(none_b) if y.get("kind") != "ContinueStmt"] if none_b.get("kind") == "CompoundStmt" else [none_b]
-    st0.block(zero_stmts)
-    rep.instance("R08d", DYN, "get_dd", "KK[g] = 0 at G + q = 0 without a direction", all(st0.cell("KK", g, a, b) == 0 for a in range(3) for b in range(3)), "the G + q = 0 term is not dropped when no direction is given", line=tu.line(gdd))
+                 f"the zone-centre term of the reciprocal sum is {core.norm(str(bad_kk[0][2]), 160) if bad_kk else ''} for (a, b) = {bad_kk[0][:2] if bad_kk else ''}, not n_a n_b/(n.eps.n): it depends on the length of the direction (e.g. a Gaussian damping factor evaluated at the un-normalised direction), so the LO-TO term at Gamma is not the q -> 0 limit", line=tu.line(gdd))
+    st0 = kk_cells(False)
+    rep.instance("R08d", DYN, "get_dd", "KK[g] = 0 at G + q = 0 without a direction", all(at(st0.cell("KK", g, a, b), True) == 0 for a in range(3) for b in range(3)), "the G + q = 0 term is not dropped when no direction is given (the sum over G used for the q = 0 on-site term)", line=tu.line(gdd))
     # bilinearity of multiply_borns and who writes dd
     mb = ex.function("multiply_borns_at_ij", scalars={"i": i, "j": j, "num_patom": n})
     ddf, ddin, Zf = sp.Function("dd"), sp.Function("dd_in"), sp.Function("born")
